@@ -22,7 +22,7 @@ func c15Doc() any {
 	}
 	vrtSpec(2, o, 1, "x,y,k", smASCII, nfInt, sfOrderForks)
 	vrtNumRange(0, 2)
-	vrtNested(1)
+	vrtNested(tq(1, 2))
 	return map[string]any{
 		"a": vrtDoc("a", 1, uNil|uObj|uJNum|uStr, uScalar),
 		"b": vrtDoc("b", 1, uNil|uObj|uJNum, uScalar),
